@@ -178,7 +178,8 @@ def control_check(prop: str, tier: str, seed: int, *, mon_props: Optional[List[s
         v.coverage["rule"] = v.coverage.get("rule", "") + (
             "; admission path: generated request files (a quarter of them not sorted by departure time, invalid rows, departures before the start and on step boundaries) "
             "read by the real UpdateRequestsFromFile (lazy and eager) and CancelRequests with scripted pick-ups; every admitted request followed by the Lean ledger "
-            "monitor violResolved (admitted once, cancelled at most once, never both, present until resolved - neither vanishes nor comes back)")
+            "monitor violResolved (admitted once, cancelled at most once, never both, present until resolved - neither vanishes nor comes back); in 30% of the steps the real "
+            "Dispatcher looks at the state the readers produced and its pairs are judged by violPairs (C10: only vehicles of the request's fleets)")
     if dl is not None:
         v.coverage["dispatcher_runs"] = dl["cases"]
         v.coverage["assignment_problems"] = dl["steps"]
@@ -212,7 +213,7 @@ def check_C07(tier: str, seed: int) -> int:
 
 @register("C10")
 def check_C10(tier: str, seed: int) -> int:
-    return control_check("C10", tier, seed, with_dispatcher=True)
+    return control_check("C10", tier, seed, with_dispatcher=True, with_timed=True)
 
 
 @register("C17")
